@@ -61,7 +61,11 @@ func InstallYield(seed uint64) {
 		x ^= x >> 31
 		x *= 0xbf58476d1ce4e5b9
 		x ^= x >> 29
-		if x&3 == 0 {
+		// point 1 (run loop, between Unlock and its select) is where a decision taken under the lock
+		// can go stale: dwell there often and for longer; point 2 (Stop's waiter) as before
+		if point == 1 && x&1 == 0 {
+			time.Sleep(time.Duration(x>>8%150) * time.Microsecond)
+		} else if x&3 == 0 {
 			time.Sleep(time.Duration(x>>8%50) * time.Microsecond)
 		}
 	})
